@@ -209,7 +209,9 @@ fn lex_block_string(lexer: &mut Lexer<'_, IsographLangTokenKind>) -> bool {
                 return true;
             }
             BlockStringToken::EscapedTripleQuote | BlockStringToken::Other => {}
-            BlockStringToken::Error => unreachable!(),
+            // A character that `Other` does not cover (e.g. one outside the Basic
+            // Multilingual Plane, or a control character): not a valid block string.
+            BlockStringToken::Error => return false,
         }
     }
     false
